@@ -1,13 +1,14 @@
 /-
 C04 line-protocol driver.
   loop <newton|bregman> <gen|asFound> <numIter> <n> ev..
-      ev ∈ ok0 | ok1 | nan | f:<branch>:<label>   (fault at the first statement of that body carrying the label)
+      ev ∈ ok0[:<branch>] | ok1[:<branch>] | nan | f:<branch>:<label>   (fault at the first statement of that body carrying the label)
       → `<converged 0/1 | error class> <iter|none> <distTag|none> <solTag> <stopped>`
   points <newton|bregman>  → the generated bodies, `branch: label/effect ...`
 -/
 import DarsiaModel.Basic
 import DarsiaModel.SolveLoop
 import DarsiaModel.WassersteinAux
+import DarsiaModel.Anderson
 import DarsiaGen.SolveLoopGen
 open Darsia Darsia.SolveLoop
 
@@ -29,12 +30,14 @@ def showEffect : Effect → String
 
 def parseEvent (c : LoopCode) (t : String) : Option Event :=
   match t with
-  | "ok0" => some (.ok false) | "ok1" => some (.ok true) | "nan" => some .nan
+  | "ok0" => some (.ok 0 false) | "ok1" => some (.ok 0 true) | "nan" => some .nan
   | _ => match t.splitOn ":" with
+    | ["ok0", b] => (b.toNat?).map fun b => .ok b false
+    | ["ok1", b] => (b.toNat?).map fun b => .ok b true
     | ["f", b, l] => do
       let b ← b.toNat?
       let l ← parseLabel l
-      let body := c.bodies.getD b []
+      let body := c.body b
       let idx := labelIndex c b l
       if idx < body.length then some (.fail b idx) else none
     | _ => none
@@ -89,7 +92,22 @@ def handleAux (rest : List String) : Option String := do
     WAux.sqNorm dim (cellVec shape xf wgt (ptq q) idx)
   pure s!"{showRats flux} | {showRats wflux} | {showRats press} | {showRats sq}"
 
+/-- `anderson <depth> <restart|none> <dim> <ncalls> (gk(dim) fk(dim) <ng> gamma..)*` → `xkp1 | xkp1 | …`; the least-squares
+routine of call `k` returns the given `gamma` -/
+def handleAnderson (rest : List String) : Option String := do
+  let ((depth, restart, dim, calls), _) ← (do
+    let depth ← P.nat; let r ← P.opt P.nat; let dim ← P.nat; let n ← P.nat
+    let calls ← P.rep (do let g ← P.rep P.rat dim; let f ← P.rep P.rat dim; let gm ← P.list P.rat; pure (g, f, gm)) n
+    P.done
+    pure (depth, r, dim, calls) : P _).run rest
+  let toV : List Rat → Anderson.V := fun l i => l.getD i 0
+  let (_, outs) := ((List.range calls.length).zip calls).foldl (fun (acc : Anderson.St × List String) (k, (g, f, gm)) =>
+    let (x, st') := Anderson.call depth restart (fun _ _ => gm) acc.1 (toV g) (toV f) k
+    (st', acc.2 ++ [showRats ((List.range dim).map x)])) (Anderson.reset depth, [])
+  pure (" | ".intercalate outs)
+
 def dispatch : List String → Option String
+  | "anderson" :: rest => handleAnderson rest
   | "aux" :: rest => handleAux rest
   | "loop" :: rest => handleLoop rest
   | "points" :: rest => handlePoints rest
